@@ -224,13 +224,17 @@ where
 {
     type Stream = Self;
 
-    fn into_parts(self) -> (Vector<VectorDiffContainerStreamElement<S>>, Self::Stream) {
+    fn into_parts(mut self) -> (Vector<VectorDiffContainerStreamElement<S>>, Self::Stream) {
         // Hand out the view without the skipped items (nothing as long as no
         // count is known), not the internal copy of the source.
         let values = match self.count {
             Some(count) => self.buffered_vector.clone().skeep(count),
             None => Vector::new(),
         };
+
+        // The values above already include the diffs that are still waiting
+        // to be handed out: they must not be emitted on top of them.
+        self.ready_values = Default::default();
 
         (values, self)
     }
